@@ -174,7 +174,7 @@ def traced_reuse(cfg, variant):
     try:
         np.random.seed(c["seed"])
         sA, t, like, pt = runs.build(dict(c, output_dir=tmp, output_label="a"))
-        sA.run(n_total=c["n_total"], progress=bool(c.get("progress")), save_every=1)
+        sA.run(n_total=c["n_total"], progress=runs.prog(c), save_every=1)
         files = {}
         for f in os.listdir(tmp):
             if f.startswith("a_") and f.endswith(".state") and "final" not in f:
@@ -189,7 +189,7 @@ def traced_reuse(cfg, variant):
         else:
             np.random.seed(c["seed"] + 1)
             s, _, _, _ = runs.build(c, like=like)          # the same likelihood object: one evaluation log for both runs
-            s.run(n_total=c["n_total"], progress=bool(c.get("progress")))
+            s.run(n_total=c["n_total"], progress=runs.prog(c))
             if variant == "results-first":
                 s.results()
                 s.posterior()
@@ -258,7 +258,7 @@ def traced_reuse(cfg, variant):
             if variant == "load":
                 s.load_state(pick)
                 whole("right after load_state")
-            s.run(n_total=2 * c["n_total"], progress=bool(c.get("progress")), resume_state_path=pick)
+            s.run(n_total=2 * c["n_total"], progress=runs.prog(c), resume_state_path=pick)
         whole("after the resumed run")
     except Exception as e:
         bad.append(("reuse-run-raises", f"[{variant}] {type(e).__name__}: {e}\n{fmt_exc()[-300:]}"))
